@@ -115,7 +115,7 @@ func compare(b, h []lexed, eb, eh expectation, eff string, partial bool) verdict
 	for i, st := range h {
 		for _, t := range st.toks {
 			if t.Kind.Unterminated() {
-				return verdict{rule: ruleUnterminated, stmt: i, detail: fmt.Sprintf("statement %d does not lex to completion: %s token starting at byte %d: %s", i, t.Kind, t.Pos, clip(t.Text, 160))}
+				return verdict{rule: ruleUnterminated, stmt: i, detail: fmt.Sprintf("statement %d does not lex to completion: %s token starting at byte %d: %q", i, t.Kind, t.Pos, clip(t.Text, 160))}
 			}
 		}
 	}
@@ -125,7 +125,7 @@ func compare(b, h []lexed, eb, eh expectation, eff string, partial bool) verdict
 			for _, t := range st.toks {
 				if t.Kind == lex.String {
 					if _, _, err := decodeBoth(t.Text); err != nil {
-						return verdict{rule: ruleDecode, stmt: i, detail: fmt.Sprintf("statement %d: literal %s: %v", i, clip(t.Text, 160), err)}
+						return verdict{rule: ruleDecode, stmt: i, detail: fmt.Sprintf("statement %d: literal %q: %v", i, clip(t.Text, 160), err)}
 					}
 				}
 			}
@@ -169,11 +169,11 @@ func compare(b, h []lexed, eb, eh expectation, eff string, partial bool) verdict
 			}
 			ba, bs, err := decodeBoth(bt[k].Text)
 			if err != nil {
-				return verdict{rule: ruleDecode, stmt: i, detail: fmt.Sprintf("statement %d: the harmless literal %s does not decode: %v", i, clip(bt[k].Text, 120), err)}
+				return verdict{rule: ruleDecode, stmt: i, detail: fmt.Sprintf("statement %d: the harmless literal %q does not decode: %v", i, clip(bt[k].Text, 120), err)}
 			}
 			ha, hs, err := decodeBoth(ht[k].Text)
 			if err != nil {
-				return verdict{rule: ruleDecode, stmt: i, detail: fmt.Sprintf("statement %d token %d: literal %s does not decode: %v", i, k, clip(ht[k].Text, 160), err)}
+				return verdict{rule: ruleDecode, stmt: i, detail: fmt.Sprintf("statement %d token %d: literal %q does not decode: %v", i, k, clip(ht[k].Text, 160), err)}
 			}
 			ok := false
 			for si := range eh.slots {
@@ -183,7 +183,7 @@ func compare(b, h []lexed, eb, eh expectation, eff string, partial bool) verdict
 				}
 			}
 			if !ok {
-				return verdict{rule: ruleDecode, stmt: i, detail: fmt.Sprintf("statement %d token %d: literal %s decodes to %q (harmless counterpart %s), intended: %s of %q",
+				return verdict{rule: ruleDecode, stmt: i, detail: fmt.Sprintf("statement %d token %d: literal %q decodes to %q (harmless counterpart %q), intended: %s of %q",
 					i, k, clip(ht[k].Text, 160), clip(string(ha), 160), clip(bt[k].Text, 60), strings.Join(eh.want, " | "), clip(eff, 160))}
 			}
 			v.carried++
